@@ -126,4 +126,11 @@ CHECKS = {
         "design_ref": "DESIGN.md 2/C19",
         "note": "Interleavings at source-line granularity (C calls atomic), threads <= 3, preemptions <= 3 (1 in the exhaustive sweeps); histories and (class, value) pairs are sampled.",
     },
+    "C04": {
+        "level": "exploration",
+        "technique": "exhaustive differential comparison: current generator run on a committed definition fixture vs the shipped package vs independent pins",
+        "text": "The current code generator is executed in a scratch tree on the committed 186-definition fixture; all 1629 generated classes (fields, order, annotations, kafka_type, tags, defaults, class vars, header schema, dataclass options), package exports, custom types, the error-code enum and the index tables are compared entry by entry with the shipped package, and both with hand-reviewed pins. The space is finite and enumerated completely on every run, so neither a hand edit of a generated module nor a generator change can pass silently.",
+        "design_ref": "DESIGN.md 2/C04",
+        "note": "The fixture was reconstructed once from the baseline package (upstream JSON unreachable offline) and accepted because generator(fixture)==package held; it pins what the baseline encodes. Docstrings/formatting not compared.",
+    },
 }
